@@ -283,6 +283,10 @@ type GRPCBroker struct {
 
 	muxer grpcmux.GRPCMuxer
 
+	// listeners opened by Accept (without multiplexing each one has a socket
+	// of its own); Close closes whatever is still open.
+	listeners []net.Listener
+
 	sync.Mutex
 }
 
@@ -379,6 +383,10 @@ func (b *GRPCBroker) Accept(id uint32) (net.Listener, error) {
 	}
 	verifhook.Point("grpc.accept.sent", b, int64(id), 1)
 
+	b.Lock()
+	b.listeners = append(b.listeners, listener)
+	b.Unlock()
+
 	return listener, nil
 }
 
@@ -441,6 +449,17 @@ func (b *GRPCBroker) Close() error {
 	b.o.Do(func() {
 		close(b.doneCh)
 	})
+
+	// Close the listeners handed out by Accept here rather than leaving it to
+	// the goroutines serving them: when a plugin shuts down its process may
+	// exit before they get to run, and their socket files would stay behind.
+	b.Lock()
+	listeners := b.listeners
+	b.listeners = nil
+	b.Unlock()
+	for _, ln := range listeners {
+		_ = ln.Close()
+	}
 	return nil
 }
 
